@@ -11,7 +11,8 @@ import PV.Lexer.SoftKw
   The three class arguments are comma separated decimal code points (`-` = none): the NON-ASCII
   characters of the source for which the real `unic` crates answer `true`.  They instantiate the
   `UParams` of the model; for ASCII the instantiation below is fixed (letters / letters, digits
-  and `_` / nothing) and `asciicls` compares exactly that with the real crates.
+  and `_` / nothing) and `asciicls` compares the resulting `isIdStart` / `isIdCont` / emoji
+  classification of the 128 ASCII characters with the behaviour of the real lexer.
 
   Answer: tokens `Kind[:payload]@start..end` separated by blanks, then `(end)` or
   `(err <Kind> <offset>)`; `(panic)` if the model says the Rust code panics.
@@ -70,7 +71,7 @@ def handle : List String → String
   | ["lexf", mode, start, src, xs, xc, em] => handleLex true mode start src xs xc em
   | ["asciicls"] =>
     let p := mkParams [] [] []
-    s!"start={bits p.xidStart} continue={bits p.xidContinue} emoji={bits p.emoji}"
+    s!"start={bits (isIdStart p)} continue={bits (isIdCont p)} emoji={bits fun c => !isIdStart p c && p.emoji c}"
   | _ => "bad-request"
 
 def main : IO Unit := protoLoop handle
